@@ -23,7 +23,7 @@ func init() {
 type c11Case struct {
 	Window int    `json:"window"`
 	Type   string `json:"type"`            // "" EVENT VOD
-	Style  string `json:"style"`           // rel abs query range range0 rangemix refs skipadv dirs
+	Style  string `json:"style"`           // rel abs query range range0 rangemix refs skipadv endfirst dirs
 	Start  int    `json:"start"`           // media sequence number of the first playlist
 	Events []int  `json:"events"`          // between polls: advance by k (0,1,2,3,6) or -1 = append ENDLIST
 	Audio  []int  `json:"audio,omitempty"` // a second, independently evolving rendition (multivariant entry point)
@@ -156,6 +156,10 @@ func c11Playlist(cs c11Case, st c11State, audio bool) string {
 		// Playlist Delta Updates are advertised although the stream is not a Low-Latency one (no CAN-BLOCK-RELOAD, no
 		// preload hint): a client in traditional mode does not ask for them
 		extra = append(extra, "#EXT-X-SERVER-CONTROL:CAN-SKIP-UNTIL=6.00000")
+	}
+	if cs.Style == "endfirst" && st.endlist {
+		// EXT-X-ENDLIST may appear anywhere in the playlist: here before the segments
+		return writeMediaPlaylist(9, 1, st.mseq, cs.Type, "", segs, false, append(extra, "#EXT-X-ENDLIST"))
 	}
 	return writeMediaPlaylist(9, 1, st.mseq, cs.Type, "", segs, st.endlist, extra)
 }
@@ -476,7 +480,7 @@ func c11Groups(tier string) []c11Group {
 	var out []c11Group
 	for _, w := range []int{1, 2, 3, 4, 6, 10} {
 		for _, typ := range []string{"", "EVENT", "VOD"} {
-			for _, style := range []string{"rel", "abs", "query", "range", "range0", "rangemix", "refs", "skipadv"} {
+			for _, style := range []string{"rel", "abs", "query", "range", "range0", "rangemix", "refs", "skipadv", "endfirst"} {
 				if tier != "thorough" && style != "rel" && !(w == 4 || w == 6) {
 					continue
 				}
